@@ -117,12 +117,28 @@ def rw_nullable(rng, p: float, style: str):
     return fn
 
 
+def rw_nullable_typed_composition(rng, p: float):
+    """3.0 `nullable: true` beside an explicit single `type` *and* a composition keyword -> the same schema with the 3.1
+    type list `[type, "null"]` (the schema layer turns the former into the latter before anything else looks at it)."""
+    count = [0]
+
+    def fn(s, pos):
+        if s.get("nullable") and isinstance(s.get("type"), str) and (s.get("oneOf") or s.get("anyOf") or s.get("allOf")) and "enum" not in s and "$ref" not in s and rng.random() <= p:
+            count[0] += 1
+            out = {k: v for k, v in s.items() if k != "nullable"}
+            out["type"] = [s["type"], "null"]
+            return out
+        return s
+    fn.count = count
+    return fn
+
+
 def rw_nullable_ref(rng, p: float):
     """`nullable: true, allOf: [ref]` -> `oneOf: [{type: null}, ref]` (null first, as the 3.0 form is normalised)."""
     count = [0]
 
     def fn(s, pos):
-        if s.get("nullable") and isinstance(s.get("allOf"), list) and len(s["allOf"]) == 1 and "$ref" in s["allOf"][0] and "properties" not in s and rng.random() <= p:
+        if s.get("nullable") and isinstance(s.get("allOf"), list) and len(s["allOf"]) == 1 and "$ref" in s["allOf"][0] and "properties" not in s and "type" not in s and rng.random() <= p:
             count[0] += 1
             out = {k: v for k, v in s.items() if k not in ("nullable", "allOf")}
             out["oneOf"] = [{"type": "null"}, s["allOf"][0]]
